@@ -241,6 +241,8 @@ func runC12(tier string) int {
 				label := eng + "/" + p.name
 				t0 := time.Now()
 				st, ok := storemc.RunIsolation(s, col, label, names, dl)
+				bigOps := storemc.RunBigClear(s, col, label)
+				st.Ops += bigOps
 				mu.Lock()
 				tot.Pairs += st.Pairs
 				tot.Ops += st.Ops
@@ -248,7 +250,7 @@ func runC12(tier string) int {
 				if !ok {
 					exhaustive = false
 				}
-				per[label] = map[string]interface{}{"ordered_pairs_checked": st.Pairs, "operations": st.Ops, "operations_that_changed_their_target": st.Changed, "complete": ok, "wall_s": time.Since(t0).Seconds()}
+				per[label] = map[string]interface{}{"ordered_pairs_checked": st.Pairs, "clears_of_a_5001_element_collection": bigOps, "operations": st.Ops, "operations_that_changed_their_target": st.Changed, "complete": ok, "wall_s": time.Since(t0).Seconds()}
 				mu.Unlock()
 				fmt.Printf("[C12] %s: pairs=%d ops=%d effective=%d complete=%v %.1fs\n", label, st.Pairs, st.Ops, st.Changed, ok, time.Since(t0).Seconds())
 			}(p)
